@@ -328,6 +328,13 @@ func (p *balloons) ReleaseResources(c cache.Container) error {
 		}
 	} else {
 		log.Debug("ReleaseResources: balloon-less container %s, nothing to release", c.PrettyName())
+		// A container that lost its balloon (it could not be re-admitted
+		// after a reconfiguration) may still hold a memory allocation.
+		if _, ok := p.memAllocator.AssignedZone(c.GetID()); ok {
+			if err := p.memAllocator.Release(c.GetID()); err != nil {
+				log.Error("ReleaseResources: failed to release memory for %s: %v", c.PrettyName(), err)
+			}
+		}
 	}
 	return nil
 }
